@@ -16,6 +16,11 @@ TAIL_PROBES = [
     ("(define c 0) (define (t) (set! c (+ c 1)) #t) (define (g) (if (t) 1 2))\n(g)\nc", "OK I 1"),
     ("(define (h x) (if x 'yes 'no))\n(vector (h 0) (h '()) (h \"\") (h #f))", "OK VM 4 Y 796573 Y 796573 Y 796573 Y 6e6f"),
     ("(define (k n) (if (> n 0) (k (- n 1)) (if #f #f)))\n(k 10)", "OK U"),
+    # bodies with internal definitions and several expressions keep their last expression in tail position
+    ("(define c 0)\n(define (lp n) (define k 1) (set! c (+ c 0)) (if (= n 0) 'done (lp (- n k))))\n(lp 200000)", "OK Y " + "done".encode().hex()),
+    # variadic and zero-argument procedures, a builtin reached by a tail call
+    ("(define (lv . xs) (if (= (car xs) 0) 'done (lv (- (car xs) 1) 7)))\n(lv 200000)", "OK Y " + "done".encode().hex()),
+    ("(define (tb n) (if (> n 0) (tb (- n 1)) (+ n 5)))\n(tb 200000)", "OK I 5"),
 ]
 
 
@@ -127,12 +132,12 @@ def result_anchor(ex, rv):
     return None
 
 
-def spec_trampoline(chk, K):
+def spec_trampoline(chk, K, probe=None):
     ex = chk.executor(True)
     nat = chk.ws.runner("dev")
     unit = "Interpreter::apply_procedure trampoline step (callees stubbed)"
     chk.region_ns = {}
-    replay = lambda vals: tail_probe(nat)
+    replay = (lambda vals: probe(nat)) if probe else (lambda vals: tail_probe(nat))
 
     def on_path(rv, events, ar, info):
         chk.path(unit)
@@ -188,7 +193,8 @@ def run(chk):
         "sub-evaluations are nondeterministic stubs; structural counterexamples are confirmed by native tail-call probes (loops of 200000 iterations) before they are reported",
     ]
     chk.run_probes("tail calls", tail_probe, chk.ws.runner("dev"), len(TAIL_PROBES))
+    chk.run_probes("procedure shapes", skel.shape_probe_selfcheck, chk.ws.runner("dev"), 6 * len(skel.SHAPES))
     chk.step("eval_tail_expression", spec_eval_tail, chk, depth)
-    chk.step("apply_scheme_procedure tail position", spec_apply_scheme, chk, "", ("order",))
+    chk.step("apply_scheme_procedure tail position", spec_apply_scheme, chk, "", ("order",), tail_probe)
     chk.step("trampoline", spec_trampoline, chk, K)
     chk.step("apply in tail position", spec_native_apply, chk, True)
